@@ -360,6 +360,7 @@ def build() -> Check:
             "fragment containing a parenthesis. Failures are bucketed by (exception type, innermost han function). coverage-guided: atheris "
             "(libFuzzer) campaigns with han/ instrumented on the same oracle, half from an empty corpus and half seeded with the pool; "
             "executions are counted in evaluations but not in distinct_nontrivial."
+            " Entry p1raw: the bytes are a whole readout handed over as DataReadout(bytes) (not constructible = skipped); tag readout: well-formed / damaged identification and end lines; tag regex-bait: 25-200 repetitions of one token (digit, '0.', letter, blank, '-', ':', '(' ...) + one stray character as value / address / unit / C.D.E / second value / whole line with every unit."
         ),
         assumptions=[
             "A call that never returns inside non-interruptible C code (e.g. catastrophic regular-expression backtracking) is detected by the runner's heartbeat: the worker is killed after 120 s without progress and the in-flight case is reported as a violation (sig hang).",
